@@ -71,6 +71,9 @@ func incrRound(g *gateway, key string, conns, perConn int, init *int64, seed int
 			<-start
 			for j := 0; j < perConn; j++ {
 				delta := concDeltas[(int(seed)+i*31+j*7)%len(concDeltas)]
+				if seed%2 == 0 && delta < 0 {
+					delta = -delta // even seeds: positive deltas only (serial-chain check)
+				}
 				var args [][]byte
 				switch {
 				case delta == 1 && j%2 == 0:
